@@ -9,11 +9,15 @@ Inductive pc_ok (s : rstate) (c : conn) : list instr -> Prop :=
 | PK_nil : pc_ok s c []
 | PK_regadd sub fs :
     reg_get c (r_reg s) = None -> In (OReq sub fs) (c_ops (r_cs s c)) ->
+    (exists ops0, c_ops (r_cs s c) = ops0 ++ [OReq sub fs]) ->
     pc_ok s c [IRegAdd; ISubAdd sub fs; IEose sub]
 | PK_subadd sub fs :
     reg_get c (r_reg s) <> None -> In (OReq sub fs) (c_ops (r_cs s c)) ->
+    (exists ops0, c_ops (r_cs s c) = ops0 ++ [OReq sub fs]) ->
     pc_ok s c [ISubAdd sub fs; IEose sub]
-| PK_eose sub fs : sub_of s c sub = Some fs -> pc_ok s c [IEose sub]
+| PK_eose sub fs :
+    sub_of s c sub = Some fs -> (exists ops0, c_ops (r_cs s c) = ops0 ++ [OReq sub fs]) ->
+    pc_ok s c [IEose sub]
 | PK_subdel sub : pc_ok s c [ISubDel sub]
 | PK_count sub : pc_ok s c [ICount sub]
 | PK_pubbegin e : pc_ok s c [IPubBegin e; IOk (ev_id e)]
@@ -57,9 +61,9 @@ Proof.
   destruct (ctl_fields _ _ Hctl) as (_ & Ed & Eo & Ec).
   destruct P.
   - constructor.
-  - constructor; [now rewrite Hreg | now rewrite Eo].
-  - constructor; [now rewrite Hreg | now rewrite Eo].
-  - econstructor. rewrite (sub_of_reg_eq s s' x sub Hreg). eassumption.
+  - constructor; [now rewrite Hreg | now rewrite Eo | now rewrite Eo].
+  - constructor; [now rewrite Hreg | now rewrite Eo | now rewrite Eo].
+  - econstructor; [rewrite (sub_of_reg_eq s s' x sub Hreg); eassumption | now rewrite Eo].
   - constructor.
   - constructor.
   - constructor.
@@ -143,6 +147,20 @@ Proof. intro P. inversion P; subst. auto. Qed.
 Lemma pc_ok_inv_eose s c sub rest : pc_ok s c (IEose sub :: rest) -> rest = [] /\ exists fs, sub_of s c sub = Some fs.
 Proof. intro P. inversion P; subst. eauto. Qed.
 
+Lemma pc_ok_inv_regadd_last s c rest :
+  pc_ok s c (IRegAdd :: rest) ->
+  exists sub fs ops0, rest = [ISubAdd sub fs; IEose sub] /\ c_ops (r_cs s c) = ops0 ++ [OReq sub fs].
+Proof. intro P. inversion P as [|? ? ? ? [ops0 E]| | | | | | | | |]; subst. eauto. Qed.
+
+Lemma pc_ok_inv_subadd_last s c sub fs rest :
+  pc_ok s c (ISubAdd sub fs :: rest) -> exists ops0, c_ops (r_cs s c) = ops0 ++ [OReq sub fs].
+Proof. intro P. inversion P; subst. assumption. Qed.
+
+Lemma pc_ok_inv_eose_last s c sub rest :
+  pc_ok s c (IEose sub :: rest) ->
+  exists fs ops0, sub_of s c sub = Some fs /\ c_ops (r_cs s c) = ops0 ++ [OReq sub fs].
+Proof. intro P. inversion P as [| | |? ? ? [ops0 E]| | | | | | |]; subst. eauto. Qed.
+
 Lemma pc_ok_inv_subdel s c sub rest : pc_ok s c (ISubDel sub :: rest) -> rest = [].
 Proof. intro P. inversion P; subst. auto. Qed.
 
@@ -184,8 +202,10 @@ Proof.
     cbn in Hl. apply Nat.eqb_eq in Hl. subst x. cbn [r_cs with_cs]. rewrite upd_same. cbn [c_pc].
     destruct o as [sub fs|sub|sub|e|]; cbn [program].
     + destruct (reg_get c (r_reg s)) eqn:Hg.
-      * apply PK_subadd; cbn [r_reg r_cs with_cs]; [now rewrite Hg | rewrite upd_same; cbn; apply in_or_app; right; now left].
-      * apply PK_regadd; cbn [r_reg r_cs with_cs]; [assumption | rewrite upd_same; cbn; apply in_or_app; right; now left].
+      * apply PK_subadd; cbn [r_reg r_cs with_cs];
+          [now rewrite Hg | rewrite upd_same; cbn; apply in_or_app; right; now left | rewrite upd_same; cbn; eauto].
+      * apply PK_regadd; cbn [r_reg r_cs with_cs];
+          [assumption | rewrite upd_same; cbn; apply in_or_app; right; now left | rewrite upd_same; cbn; eauto].
     + destruct (reg_get c (r_reg s)); constructor.
     + constructor.
     + constructor.
@@ -193,15 +213,20 @@ Proof.
   - (* regadd *)
     apply Hact in Hl. subst x. pose proof (inv_pc s I c) as P. rewrite H in P.
     destruct (pc_ok_inv_regadd _ _ _ P) as (sub & fs & -> & Hg & Ho).
+    destruct (pc_ok_inv_regadd_last _ _ _ P) as (sub' & fs' & ops0 & Er & Eo). inversion Er; subst sub' fs'.
     cbn [r_cs]. rewrite upd_same. cbn [c_pc set_pc].
     apply PK_subadd; cbn [r_reg r_cs].
     + rewrite reg_get_set_same. discriminate.
     + rewrite upd_same. exact Ho.
+    + rewrite upd_same. cbn. eauto.
   - (* subadd *)
     apply Hact in Hl. subst x. pose proof (inv_pc s I c) as P. rewrite H in P.
     destruct (pc_ok_inv_subadd _ _ _ _ _ P) as (-> & Hg & Ho).
+    destruct (pc_ok_inv_subadd_last _ _ _ _ _ P) as (ops0 & Eo).
     cbn [r_cs]. rewrite upd_same. cbn [c_pc set_pc].
-    apply PK_eose with (fs := fs). rewrite sub_of_mk, reg_get_set_same. apply assoc_sm_set_same.
+    apply PK_eose with (fs := fs).
+    + rewrite sub_of_mk, reg_get_set_same. apply assoc_sm_set_same.
+    + cbn [r_cs]. rewrite upd_same. cbn. eauto.
   - (* subadd_none *)
     apply Hact in Hl. subst x. pose proof (inv_pc s I c) as P. rewrite H in P.
     destruct (pc_ok_inv_subadd _ _ _ _ _ P) as (_ & Hg & _). contradiction.
